@@ -7,7 +7,7 @@ CHECKS = {
          "text": "TLC checks on the model alone that the documented format is uniquely decodable and loses only the documented normalisations "
                  "(MCCodec: every kind in every position with every boundary value); the same enumerated cases and seeded random types/values "
                  "(sessions of 50 cases sharing one Plenc instance) are executed on the real library and every execution is judged by TLC "
-                 "(TraceCodec: back = Normalise(v), values only). Exhaustive within the stated small scope, sampled beyond it.",
+                 "(TraceCodec: back = Normalise(v), values only), for both calling conventions (pointer and by value). Exhaustive within the stated small scope, sampled beyond it.",
          "note": TB + " Scope decisions: top-level type is not a pointer/null type; ProtoCompatibleArrays top level is a struct."},
  "C02": {"technique": "independent TLA+ encoder + order-insensitive byte matcher, TLC design check + trace validation of real Marshal output",
          "text": "The model's Encode is an encoder written independently of the codecs; TLC checks walkability/matcher soundness on the enumerated universe, "
@@ -47,14 +47,15 @@ CHECKS = {
  "C10": {"technique": "TLA+ Decode(config, type, bytes, prior) as the step relation of Unmarshal, trace validation of histories on shared instances",
          "text": "Unmarshal into pre-populated targets (longer / shorter slices with stale elements beyond len, overlapping map keys, non-nil pointers, nested) "
                  "is judged against the model's merge rules; sessions of 50 calls share one Plenc instance so pools, scratch keys, interning tables and "
-                 "registries carry history, and ordinary round trips into fresh variables on such instances must equal the history-free result.",
+                 "registries carry history, and ordinary round trips into fresh variables on such instances must equal the history-free result; readers that read the repeated "
+                 "form through an untagged slice field, and JSON-any containers decoded into variables already holding an empty / shorter / longer container.",
          "note": TB + " Nil-vs-empty of a re-used slice that ends up empty is left open by the statement and not compared."},
  "C06": {"technique": "TLA+ state machine PlencSystem (buffers, variables, API calls) model-checked with TLC; generated histories replayed on the real library and validated call by call (TraceSystem)",
          "text": "TLC checks the action properties AppendOnly / Frame* on PlencSystem; all histories of 3 calls over the catalogue (values that encode to nothing, "
-                 "pointer-shaped by-value shapes, 128+-byte elements), a sweep of every spare capacity 0..460 x prefix, and random 6..12-call histories on two buffers "
+                 "pointer-shaped by-value shapes at depth 1-3, 128+-byte elements, narrow named kinds, plus seeded random catalogue items), a sweep of every spare capacity 0..460 x prefix, and random 6..12-call histories on two buffers "
                  "are executed on one Plenc instance with persistent source variables rewritten in place; after every call TLC compares the returned bytes and all "
                  "live buffers with the specification's step function (one TLC state per call, re-synchronising after a rejection).",
-         "note": TB + " Catalogue maps have a single entry so byte equality is exact."},
+         "note": TB + " Catalogue maps have a single entry and random catalogue items contain no maps, so byte equality is exact."},
  "C11": {"technique": "frame conditions of the PlencSystem actions validated on replayed histories + direct memory-overlap observation in the harness; single calls on random types and scheduled concurrent interned decodes judged by TraceCodec / TraceSched",
          "text": "Values are immutable in the specification, so every action changes only its own target; the harness scrambles the marshalled value in place after "
                  "every Marshal, overwrites input buffers (scribble) after Unmarshal, re-reads every live buffer and variable after every call, and additionally reports "
@@ -65,15 +66,16 @@ CHECKS = {
  "C04": {"technique": "TLC-enumerated input space + design invariants of a total decoder (progress, bounded skip); real decoders observed on every enumerated and mutated input, judged by TraceHostile",
          "text": "TLC enumerates every byte string up to length 3 (quick) / 4-5 (thorough) over a representative alphabet, checks on the model that the schema-less walk "
                  "makes progress and never reports more than there is, and emits strings and 30 target types; every (string, target, Unmarshal | Descriptor.Read) "
-                 "combination plus byte-wise mutations of valid encodings of random types is executed in isolated workers (4 GiB address space, 10 s budget) and TLC "
+                 "combination, the same strings embedded as the body of an unknown field inside a slice element / nested struct / map value, plus byte-wise mutations (truncation, replacement, huge and wrap-around lengths, deletions, repeated stretches) of valid encodings of random types read by the writer's type or by a derived reader type, is executed in isolated workers (4 GiB address space, 10 s budget) and TLC "
                  "judges each outcome: value or error with a message, no panic / fault / timeout, input untouched, allocation within 1 MiB + 4 KiB per input byte.",
          "note": "Real-code observation on model-generated inputs (DESIGN.md section 8): an out-of-bounds read through unsafe that neither faults nor changes the outcome is invisible. " + TB},
  "C08": {"technique": "TLA+ classification of type definitions (accept / reject / either) + codec-level model, TLC-enumerated definition universe replayed on CodecForType and judged",
-         "text": "TLC enumerates field kind x position x tag string x exported-ness (7.7k definitions, incl. every unsupported kind in every position, duplicate "
-                 "indexes and recursive definitions that must fail) and checks the classification's own sanity; each definition goes to the real CodecForType: "
+         "text": "TLC enumerates field kind x position x tag string x exported-ness (about 25k definitions, incl. every unsupported kind and the null types in every position, duplicate "
+                 "indexes at word-size boundaries, indexes beyond the largest field number, and recursive definitions that must fail on an unsupported field or a duplicate index) and checks the classification's own sanity; each definition goes to the real CodecForType: "
                  "must-reject -> an error with a message, never a panic; a returned codec is used on the zero and a populated value into a pre-populated target "
                  "and judged with the model (documented bytes for must-accept definitions, value-level round trip otherwise; skipped fields neither encoded nor "
-                 "written); after a rejection the types possibly published on the way are requested again and used.",
+                 "written; a one-byte witness field sits right behind the field under test); after a rejection the types possibly published on the way are requested again "
+                 "and used, and anything that contains the rejected type must be rejected as well.",
          "note": TB + " The abstract reading of each tag string is part of the specification's table (strconv.Atoi semantics)."},
  "C15": {"technique": "implementation-shaped TLA+ state machine of JSONOutput (stack / depth / inField, token output) with a token-level parser, model-checked; real outputs parsed and compared with the model's call tree",
          "text": "TLC explores every well-nested call sequence up to a bound on output tokens (incl. Reset at any point) and checks Parse(out) = call tree, stack = open "
